@@ -36,6 +36,8 @@ Definition f1em5 : F := fofdy 5902958103587057 (-69).
 
 (** Python's [max(a, b)]: [b] iff [b > a], else [a]. *)
 Definition fmax (a b : F) : F := if fltb a b then b else a.
+(** Python's [min(a, b)]: [b] iff [b < a], else [a]. *)
+Definition fmin (a b : F) : F := if fltb b a then b else a.
 
 (** [functools.reduce(lambda x, y: x + y, l)] with no initial value. *)
 Definition reduce_add (l : list F) : F :=
